@@ -113,10 +113,27 @@ def parent(chk, F):
     killers = [ln for ln, m in through_helper(F, inner["body"], "kill") if ln]
     PROC = killers[0][0] if killers else None
     FLAG = None
+    FATE = None      # (local, variant that means "replace the child") when the decision is an enum value instead of a bool flag
+
+    def flag_test(cond):
+        """`flag`, or `fate == Enum::Variant` / `Enum::Variant == fate` / `matches!(fate, Enum::Variant)`: (local name, variant or None)"""
+        c = cond
+        while c.get("k") in ("DropTemps", "Paren") and c.get("e"):
+            c = c["e"]
+        if H.local_name(c):
+            return H.local_name(c)[0], None
+        if c.get("k") == "Binary" and c.get("op") == "Eq":
+            for x, y in ((c["a"], c["b"]), (c["b"], c["a"])):
+                if H.local_name(x) and y.get("k") == "Path" and (y.get("r") or {}).get("res") == "def" and "Ctor" in str(y["r"].get("dk", "")):
+                    return H.local_name(x)[0], y["r"]["path"].split("::")[-1]
+        if c.get("k") == "Let" and H.local_name(c.get("init", {})) and c["pat"].get("pk") == "expr" and "path" in c["pat"].get("e", {}):
+            return H.local_name(c["init"])[0], c["pat"]["e"]["path"].split("::")[-1]
+        return None
     for kind, node in H.stmts_of(inner["body"]):
         e = node.get("init") if kind == "let" else node
-        if e and e.get("k") == "If" and H.local_name(e["cond"]) and through_helper(F, e["then"], "kill"):
-            FLAG = H.local_name(e["cond"])[0]
+        if e and e.get("k") == "If" and flag_test(e["cond"]) and through_helper(F, e["then"], "kill"):
+            FLAG, var = flag_test(e["cond"])
+            FATE = (FLAG, var) if var else None
     if not (RECVQ and SENDQ and FRAME and PROC and FLAG):
         raise AnchorLost("run_task: could not identify the request channel, reply channel, frame, child process and respawn flag (%s)" % [RECVQ, SENDQ, FRAME, PROC, FLAG])
 
@@ -137,7 +154,7 @@ def parent(chk, F):
             seq.append(("MATCH", line, e))
         elif has_mc("write_async", FRAME) and e.get("k") != "Closure":
             seq.append(("WRITE", line, e))
-        elif e.get("k") == "If" and H.local_name(e["cond"]) and H.local_name(e["cond"])[0] == FLAG:
+        elif e.get("k") == "If" and flag_test(e["cond"]) and flag_test(e["cond"])[0] == FLAG:
             seq.append(("IFBREAK", line, e))
         else:
             seq.append(("other", line, e))
@@ -284,6 +301,15 @@ def parent(chk, F):
 
     # ---- (b) arm table -----------------------------------------------------------------------------
     n_err = 0
+    fate_pos = None
+    if FATE is not None:
+        # `let (reply, fate) = match pending.await {..}`: which component of the arms' tuples is the fate
+        mlet = next((st for k_, st in H.stmts_of(inner["body"]) if k_ == "let" and st.get("init") is mnode), None)
+        subs = (mlet["pat"].get("subs") or []) if mlet and mlet["pat"].get("pk") == "tuple" else []
+        pos = [i_ for i_, p_ in enumerate(subs) if p_.get("pk") == "bind" and p_.get("name") == FATE[0]]
+        fate_pos = pos[0] if len(subs) == 2 and len(pos) == 1 else None
+        if fate_pos is None:
+            raise AnchorLost("the respawn decision `%s` is not bound from the second value of `match pending.await`" % FATE[0])
     for a in mnode["arms"]:
         ptxt = H.pat_str(a["pat"]) + (" if " + H.expr_str(a["guard"], 60) if a.get("guard") else "")
         sets = [x for x in H.assigns_to(a["body"], FLAG)]
@@ -292,6 +318,18 @@ def parent(chk, F):
         tail = a["body"]
         if tail.get("k") == "Block":
             tail = tail.get("expr") or {}
+        if FATE is not None:
+            # the arm yields (reply, fate): the decision is the second component, the reply the first
+            if tail.get("k") == "Tup" and len(tail["elems"]) == 2 and fate_pos is not None:
+                dec = tail["elems"][fate_pos]
+                tail = tail["elems"][1 - fate_pos]
+                dv = dec["r"]["path"].split("::")[-1] if dec.get("k") == "Path" and (dec.get("r") or {}).get("res") == "def" else None
+                sets = [dec] if dv == FATE[1] else []
+                sets_true = dv == FATE[1]
+                if dv is None:
+                    tail = {}
+            else:
+                tail = {}
         ctor = None
         if tail.get("k") == "Call" and tail["f"].get("k") == "Path":
             ctor = tail["f"]["r"].get("path", "").split("::")[-1]
@@ -315,6 +353,8 @@ def parent(chk, F):
     # break_out declared false before the match, inside the loop
     decl = [s for k, s in H.stmts_of(inner["body"]) if k == "let" and s["pat"].get("name") == FLAG]
     okdecl = len(decl) == 1 and decl[0]["init"]["k"] == "Lit" and decl[0]["init"]["lit"]["v"] is False
+    if FATE is not None:
+        okdecl = fate_pos is not None      # bound afresh by every request's `let (reply, fate) = match ..`
     chk.decide(okdecl, "recovery-arms", FK, "break_out-init", "%s:%d" % (file, decl[0]["line"] if decl else 0),
                "break_out is initialised to false per request", "break_out is not a per-request flag initialised to false")
     # IFBREAK: kill + break to outer
